@@ -363,7 +363,7 @@ pub fn generate(rng: &mut Rng, prop: &str, corpus: &[String]) -> CompileCheck {
         10 | 11 => gen::program(rng, gen::Family::IoPressure, width, corpus, false),
         12 => gen::program(rng, gen::Family::Idioms, width, corpus, false),
         13 => gen::program(rng, gen::Family::Brackets, width, corpus, false),
-        0 | 1 => gen::explosive(rng),
+        0 | 1 => gen::explosive_w(rng, width),
         2 => gen::deep_nesting(rng),
         3 => gen::program(rng, gen::Family::Pressure, width, corpus, false),
         4 | 5 => gen::program(rng, gen::Family::Raw, width, corpus, false),
